@@ -308,6 +308,15 @@ class repeated_node_property(base_rw_property[RepeatedNodeWrapper[_M], base.RawT
         replace_node(repeated, value.repeated)
         self._inner_field.__set__(instance, value.repeated)
         instance.__dict__[self._attr] = value
+        drop_cached_views(instance)
+
+
+def drop_cached_views(instance: base.RawTreeModel) -> None:
+    """Forgets the cached value views of a model: they are built on a wrapper that has just been replaced."""
+    for cls in type(instance).__mro__:
+        for attr in vars(cls).values():
+            if isinstance(attr, cached_custom_property):
+                instance.__dict__.pop(attr._attr, None)
 
 
 def _default_fset(instance: _U, value: _V) -> None:
